@@ -54,12 +54,46 @@ func C06(c *Ctx) {
 		},
 	}
 	c.runKnownF20()
+	c.runKnownF25()
 	c.ModelCheck(cfg)
 	// the options must not change results of left-recursive grammars either (value and consumed
 	// prefix; error lists under Memoize are subject to known finding F06 and compared in C08)
 	c.lrPass(6, c.N(30, 300), CmpVal|CmpEnd|CmpOK, []OptSet{{Name: "default"}, {Name: "memoize", Memo: true}, {Name: "memoize+stats", Memo: true, Stats: true}, {Name: "debug", Debug: true}}, false,
 		func(m *ref.Result) bool { return m.LRGrowths >= 1 })
 	c.c06Long()
+}
+
+// runKnownF25 executes the fixed witness of known finding F25: R <- e:( "a" R ) ( &"b" {reads e} ) / ""
+// on "aab": the action expression is evaluated at offset 2 for the inner R (e = the inner group) and
+// found in the cache for the outer R, whose e is another value.
+func (c *Ctx) runKnownF25() {
+	found := false
+	for _, id := range c.KnownIDs() {
+		if id == "F25-memo-action-outer-labels" {
+			found = true
+		}
+	}
+	if !found {
+		return
+	}
+	g := &gast.Grammar{Rules: []*gast.Rule{{Name: "R", Expr: gast.C(gast.S(gast.Lab("e", gast.S(gast.L("a"), gast.Ref("R"))), gast.A(gast.AndE(gast.L("b")), 1, mon.Spec{})), gast.L(""))}}}
+	g.Finalize()
+	bt := c.BuildUnits([]*gast.Grammar{g}, [][]string{{}}, false, nil)
+	defer bt.Close()
+	if !bt.Units[0].OK {
+		c.Broken("F25 witness does not build: " + bt.Units[0].Fail)
+		return
+	}
+	in := []byte("aab")
+	res := bt.Run([]*mon.Case{{ID: "f25/d", Pkg: bt.Units[0].Pkg, Input: in}, {ID: "f25/m", Pkg: bt.Units[0].Pkg, Input: in, Memo: true}}, runOptsDefault)
+	m := ref.Run(g, in, ref.Opts{})
+	d, mm := res["f25/d"], res["f25/m"]
+	if d == nil || mm == nil || d.Val != m.ValCanon {
+		c.Broken("F25 witness: the default-option run does not give the model's value")
+		return
+	}
+	c.MarkKnownStillFails("F25-memo-action-outer-labels", mm.Val != d.Val)
+	c.Eval(2)
 }
 
 // runKnownF20 executes the fixed witness of known finding F20.
@@ -214,6 +248,10 @@ func c06Strata() []*gast.Grammar {
 		mk(r("SErr", gast.S(gast.Star(gast.S(gast.Ref("I"), gast.L(";"))), gast.Star(gast.Dot()))),
 			r("I", gast.C(gast.S(gast.Ref("N"), gast.L("a")), gast.S(gast.Ref("N"), gast.L("b")), gast.S(gast.Ref("N"), gast.L("c")), gast.Ref("N"))),
 			r("N", gast.A(gast.Cl(&gast.ClassSpec{Ranges: [][2]rune{{'0', '9'}}}), 1, mon.Spec{E: 1}))),
+		// an action expression that reads a label bound before it in the enclosing sequence, reached at
+		// one offset by an inner and an outer invocation of the rule (known finding F25 under Memoize)
+		mk(r("R", gast.C(gast.S(gast.Lab("e", gast.S(gast.L("a"), gast.Ref("R"))), act(gast.AndE(gast.L("b")), 1)), gast.L("")))),
+		mk(r("S", gast.S(gast.Ref("R"), gast.Star(gast.Dot()))), r("R", gast.C(gast.S(gast.Lab("e", gast.S(gast.Lab("b", gast.Dot()), gast.Lab("y", gast.Ref("R")))), act(gast.NotE(gast.NotE(gast.Dot())), 1)), act(gast.Star(gast.L("b")), 2)))),
 	}
 }
 
